@@ -743,8 +743,11 @@ def hunt2_rules(chk, repo):
                                   f"{cname}.{m.name}() compares the size with client_max_size without the `0 = no limit` convention its siblings (request.read(), request.post()) follow: with client_max_size=0 every multipart field is refused with 413 `Maximum request body size 0 exceeded`")
     chk.expect_count("C19.limit.zero", nlim, 3, "size comparisons against client_max_size")
     # ---- C19.decode: a part decoded chunk by chunk is decoded as one stream -------------------------------------------------------------------------
+    # the chunk-wise decoders: decode_iter() and the async generators it delegates to
     di = bp.methods["decode_iter"]
-    fresh = [c for c in prog.calls_in(di.node) if norm.raw(c.func) == "ZLibDecompressor"]
+    chain = [di] + [bp.methods[c.func.attr] for c in prog.calls_in(di.node) if isinstance(c.func, ast.Attribute) and norm.raw(c.func.value) == "self" and c.func.attr in bp.methods]
+    fresh = [c for m_ in chain for c in prog.calls_in(m_.node) if norm.raw(c.func) == "ZLibDecompressor"]
+    chk.expect_count("C19.decode.chunkwise", len(fresh), 1, "decompressor constructions on the chunk-wise decoding path")
     for c in fresh:
         if PC.pc(c, raw=True) and any("eof" in l.text or "is None" in l.text for cl_ in PC.pc(c, raw=True) for l in cl_ if "encoding" not in l.text):
             chk.ok("C19.decode", c, "decode_iter() keeps one decompressor per part until the compressed stream has ended")
